@@ -4,6 +4,7 @@ from __future__ import annotations
 import itertools
 import math
 
+from mc.monitors import physical_fall
 from mc import alphabets as A
 from mc import refsched, seqx
 from mc.evidence import Result
@@ -55,6 +56,13 @@ def phase_jump(ctx):
     gap = p2.ti - p1.tf
     if need > 0:
         ctx.act["phase_jump_buffer_required"] += 1
+    if not in_eom and not p1.in_eom and p["bw"]:
+        # the same requirement with the fall time taken from the scheduled samples (documented filter), not from Pulse.fall_time
+        need2 = p["pjt_eff"] + physical_fall(p1, p["bw"])
+        ctx.act["phase_jump_physical_bound_compared"] += 1
+        if gap < need2:
+            return [(f"C10:phase-jump-before-the-output-has-ended:{proto}",
+                     f"{name}: pulses of phase {p1.pulse.phase:.4g} -> {p2.pulse.phase:.4g} separated by {gap} < phase-jump time + {need2 - p['pjt_eff']} ns of modulated output")]
     if gap < need:
         return [(f"C10:phase-jump-too-short:{'eom' if in_eom else 'std'}:{proto}",
                  f"{name}: pulses of phase {p1.pulse.phase:.4g} -> {p2.pulse.phase:.4g} separated by {gap} < {need}")]
@@ -85,6 +93,11 @@ def retarget(ctx):
                             ctx.act["retarget_after_pulse_with_fall"] += 1
                         if s.ti < lo:
                             out.append(("C10:retarget-before-ramp-down", f"{name}: {s.brief()} begins before {q.brief()} ramped down ({lo})"))
+                        if not q.in_eom and not q.cur_eom and p["bw"]:
+                            lo2 = q.tf + physical_fall(q, p["bw"])
+                            ctx.act["retarget_physical_bound_compared"] += 1
+                            if s.ti < lo2:
+                                out.append(("C10:retarget-before-the-output-has-ended", f"{name}: {s.brief()} begins while the modulated output of {q.brief()} is present (until {lo2})"))
                         break
     if op[0] == "target" and ctx.exc is None and op[2] in ctx.pre.channels and ctx.pre.channels[op[2]].slots:
         pre_ch, post_ch = ctx.pre.channels[op[2]], ctx.post.channels[op[2]]
